@@ -234,8 +234,10 @@ def load(path):
             f.locals[lm.group(1)] = lm.group(2)
         fns.setdefault(name, []).append(f)
     allocs = {}
-    for m in re.finditer(r'^(alloc\d+) \(size: (\d+), align: \d+\) \{\n(.*?)^\}\n', text, re.S | re.M):
-        allocs[m.group(1)] = (int(m.group(2)), m.group(3))
+    for m in re.finditer(r'^(alloc\d+) \((?:static: ([\w:]+), )?size: (\d+), align: \d+\) \{\n(.*?)^\}\n', text, re.S | re.M):
+        allocs[m.group(1)] = (int(m.group(3)), m.group(4), m.group(2))
+    for m in re.finditer(r'^(alloc\d+) \((?:static: ([\w:]+), )?size: 0, align: \d+\) \{\}', text, re.M):
+        allocs.setdefault(m.group(1), (0, '', m.group(2)))
     return fns, allocs, text
 
 
